@@ -481,7 +481,7 @@ def evaluate__atan2(self: XPathFunction, context: ta.ContextType = None) -> ta.O
     if self.context is not None:
         context = self.context
 
-    x = self.get_argument(context, cls=NumericProxy)
+    x = self.get_argument(context, required=True, cls=NumericProxy)
     y = self.get_argument(context, index=1, required=True, cls=NumericProxy)
     return math.atan2(x, y)
 
